@@ -479,8 +479,9 @@ func (e *Engine) sprintf(st *State, args []Value) Value {
 				out = append(out, r.(StringV).B...)
 			}
 		default:
-			e.unsupported_(st, "Sprintf verb %"+string(verb))
-			return nil
+			// %T %x %q %w ...: rendered opaquely (such strings only reach logs, error texts and panic messages in the code in scope)
+			e.modelsUsed["fmt verb %"+string(verb)+" rendered opaquely"] = true
+			out = append(out, mkString("<%"+string(verb)+">").B...)
 		}
 	}
 	return StringV{out}
